@@ -155,7 +155,7 @@ impl Check for C08 {
         let mut fs = FaultStats::default();
         let mut doc = cases::doc_opts_for(tier, &mut rng);
         doc.pay.max_len = doc.pay.max_len.min(300);
-        let io = InputOpts { doc, faulted_pct: 25, truncated_pct: 15, random_pct: 0, soup_pct: 0, max_faults: 2 };
+        let io = InputOpts { doc, faulted_pct: 25, truncated_pct: 15, random_pct: 0, soup_pct: 0, max_faults: 2, mid_document_pct: 8 };
         let mut gi = cases::gen_input(&mut rng, &spec, &io, &mut fs);
         let mut deep: Option<u64> = None;
         if rng.chance(1, 300) {
